@@ -56,6 +56,10 @@ def ListenOK {S} (M : Machine S) : S → List Input → Prop
   | _, [] => True
   | s, i :: rest => (M.started s = true ∨ i = Input.start) ∧ ListenOK M (M.step s i).1 rest
 
+def Input.isTimeout : Input → Bool
+  | .timeout .. => true
+  | _ => false
+
 def Entry.isTimeout : Entry → Bool
   | .timeout .. => true
   | _ => false
@@ -98,8 +102,10 @@ structure ReplaySafe {S} (M : Machine S) : Prop where
     M.height (M.step s i).1 = M.height s
   /-- Votes and proposals are sent for the current height only. -/
   votes_current_height : ∀ s i v, v ∈ votesOf (effectsOf true (M.step s i).2) → v.h = M.height s
-  /-- Before `start`, messages are only stored: nothing visible, height and started unchanged. -/
-  unstarted_silent : ∀ s i, M.started s = false → i ≠ Input.start →
+  /-- Before `start`, MESSAGES are only stored: nothing visible, height and started unchanged.
+  (Not so for timeouts: `ProcessTimeout` does not look at `isHeightStarted`; `listen` and the replay
+  discipline `ReplayOK` never deliver one to an unstarted height.) -/
+  unstarted_silent : ∀ s i, M.started s = false → i ≠ Input.start → i.isTimeout = false →
     visA (M.step s i).2 = [] ∧ M.started (M.step s i).1 = false ∧
     M.height (M.step s i).1 = M.height s
   /-- A message or timeout of a future height is only stored: nothing visible happens. -/
